@@ -1,4 +1,5 @@
 import PkgProofs.Lemmas.MarkerFormat
+import PkgProofs.Lemmas.MarkerLexParse
 import PkgProofs.Lemmas.MarkerEval
 /-!
 # C09 — Marker string form is canonical and round-trips
@@ -11,13 +12,14 @@ are false (witnesses: findings_proposed/C09.json; the laws of harness/props/C09.
 
 Granularity.  `str_is_spelled_tokens` shows that `str m` is the spelling (single spaces, none inside
 parentheses) of the token-level format `fmtToksL m true`, which runs the same recursion as
-`_format_marker`.  The round-trip theorems are stated for the parser run on that token sequence
-(`parseToks`, the same generic recursive-descent code as on characters).  That the character-level
-tokenizer, run on the spelling, yields these tokens is tied by the correspondence check and by the
-quoting lemma `literal_quote_safe`; it is not proved here in general (see `PROP.partial`).
+`_format_marker`.  Section 2 states the round trip for the parser run on that token sequence (`parseToks`,
+the same generic recursive-descent code as on characters) under the weakest hypotheses; section 2b lifts it
+to the **character level** (`Mk.parse`, i.e. the context-sensitive tokenizer with the regenerated rules,
+`\b` and all): `str_roundtrip_char`, for markers whose variables are the canonical names, whose operators
+are the ten marker operators and whose literals are plain and contain at most one kind of quote.
 -/
 namespace C09
-open Py Mk Pep508 MkParse MkFmt
+open Py Mk Pep508 MkParse MkFmt MkLex MkLexP
 set_option linter.unusedSimpArgs false
 
 /-! ### 1. `str` and the token-level format -/
@@ -63,16 +65,51 @@ theorem literal_preserved (m : List M) (f : Formula) (h : formulaOf m = some f) 
 theorem outer_parentheses_dropped (l : List M) : str [.list l] = str l ∧ str [.list [.list l]] = str l := by
   exact ⟨by unfold str; rw [fmtL], by unfold str; rw [fmtL, fmtL]⟩
 
-/-! ### 3. Quoting (character level) -/
+/-! ### 2b. Round trip at character level -/
 
-theorem indexOf?_append (q : Nat) : (s : Str) → (rest : Str) → s.contains q = false →
-    indexOf? q (s ++ q :: rest) = some s.length
-  | [], rest, _ => by simp [indexOf?]
-  | c :: s, rest, h => by
-    simp only [List.contains_cons, Bool.or_eq_false_iff] at h
-    have hne : c ≠ q := by intro e; subst e; simp at h
-    have hc : (c == q) = false := by simpa using hne
-    simp [indexOf?, hc, indexOf?_append q s rest h.2]
+/-- **`str` parses back, character level.**  For every marker list that denotes a formula (any nesting, any
+redundant single-element lists) over canonical comparisons: the real entry point — tokenizer and parser
+on the characters of `str m` — returns the normal form of `m`, which prints identically (idempotence),
+denotes the same formula (grouping preserved) and has the same comparisons (literals preserved). -/
+theorem str_roundtrip_char (m : List M) (f : Formula) (h : formulaOf m = some f) (hc : ∀ a ∈ atomsL m, CanonAtom a) :
+    ∃ m', parse (str m) = .ok m' ∧ str m' = str m ∧ formulaOf m' = formulaOf m ∧ atomsL m' = atomsL m ∧
+      ∀ ν : Atom → Res Bool, evalMarkers ν m' = evalMarkers ν m := by
+  have h' : formulaOf (nfTop m) = some f := by rw [formulaOf, fOfL_nfTop]; exact h
+  refine ⟨nfTop m, ?_, ?_, by rw [formulaOf, fOfL_nfTop]; rfl, atomsL_nfTop m, ?_⟩
+  · rw [str_eq_spell, fmtToksL_true]
+    exact parse_spell_print (nfTop m) f h' (by rw [atomsL_nfTop]; exact hc)
+  · rw [str_eq_spell, str_eq_spell, fmtToksL_true, fmtToksL_true, nfTop_idem]
+  · intro ν
+    unfold evalMarkers
+    rw [MkEval.list_eq ν _ f h', MkEval.list_eq ν _ f h]
+
+mutual
+theorem normM_fixed (X : Ext) : (m : M) → (∀ a ∈ atomsM m, normAtom X a = a) → normM X m = m
+  | .atom a, h => by simp [normM, h a (by simp [atomsM])]
+  | .bool s, _ => by simp [normM]
+  | .list l, h => by simp only [normM]; rw [normalize_fixed X l (fun a ha => h a (by simpa [atomsM] using ha))]
+theorem normalize_fixed (X : Ext) : (l : List M) → (∀ a ∈ atomsL l, normAtom X a = a) → normalizeExtra X l = l
+  | [], _ => by simp [normalizeExtra]
+  | m :: ms, h => by
+    simp only [normalizeExtra]
+    rw [normM_fixed X m (fun a ha => h a (by simp [atomsL, ha])), normalize_fixed X ms (fun a ha => h a (by simp [atomsL, ha]))]
+end
+
+/-- **`Marker(str(m))` is a marker equal to `m`**, character level, through `Marker.__init__` (parse, then
+`_normalize_extra_values`): for a constructed marker (its comparisons are already normalised) the result
+prints identically — so it is equal, hashes alike, denotes the same formula and evaluates identically. -/
+theorem marker_roundtrip_char (X : Ext) (m : List M) (f : Formula) (h : formulaOf m = some f)
+    (hc : ∀ a ∈ atomsL m, CanonAtom a) (hn : ∀ a ∈ atomsL m, normAtom X a = a) :
+    ∃ m', mkMarker X (str m) = .ok m' ∧ eq m' m = true ∧ hashKey m' = hashKey m ∧ formulaOf m' = formulaOf m ∧
+      ∀ ν : Atom → Res Bool, evalMarkers ν m' = evalMarkers ν m := by
+  obtain ⟨m', h1, h2, h3, h4, h5⟩ := str_roundtrip_char m f h hc
+  refine ⟨m', ?_, by simp [eq, h2], by simp [hashKey, h2], h3, h5⟩
+  unfold mkMarker
+  rw [h1]
+  simp only [Except.map]
+  rw [normalize_fixed X m' (by rw [h4]; exact hn)]
+
+/-! ### 3. Quoting (character level) -/
 
 /-- **the delimiter chosen by `Value.serialize` does not occur in the value**: on the serialised literal,
 followed by anything, the `QUOTED_STRING` rule matches exactly the literal, and `literal_eval` returns
@@ -251,6 +288,8 @@ example : (parse (str m0)).toOption.map str = some (str m0) := by decide +kernel
 /-- `extra == "Foo_Bar"` inside the nested group is normalised to `foo-bar` -/
 example : atomsL (normalizeExtra X0 m0) = [b1, b2, ⟨.var s_extra, s_eq, .val [102, 111, 111, 45, 98, 97, 114]⟩] := by decide
 example : ¬ ((([97, 34, 98] : Str).contains 34 = true) ∧ (([97, 34, 98] : Str).contains 39 = true)) := by decide
+example : ∀ a ∈ atomsL m0, CanonAtom a := by decide
+example : ∀ a ∈ atomsL (normalizeExtra X0 m0), normAtom X0 a = a := by decide
 
 end Examples
 
